@@ -606,12 +606,18 @@ func NewFECase(g *Gen, id int) *Case {
 			}
 			var lines []string
 			for _, k := range o.Keys {
+				// the issue key starts with the source's name of a top-level field (which may itself end in "[]")
 				head, rest := k, ""
-				if i := strings.IndexAny(k, ".["); i >= 0 {
-					head, rest = k[:i], k[i:]
+				best := -1
+				for src := range back {
+					if strings.HasPrefix(k, src) && len(src) > best && (len(k) == len(src) || k[len(src)] == '.' || k[len(src)] == '[') {
+						best = len(src)
+					}
 				}
-				if b, ok := back[head]; ok {
-					head = b
+				if best >= 0 {
+					head, rest = back[k[:best]], k[best:]
+				} else if i := strings.IndexAny(k, ".["); i >= 0 {
+					head, rest = k[:i], k[i:]
 				}
 				for _, is := range o.ByKey[k] {
 					if (is.Code == "" && is.HasErr) || is.Code == "user_code" {
